@@ -185,7 +185,7 @@ func dvalCoq(v any, targets []reflect.Type) string {
 				continue
 			}
 			k := tg.Kind()
-			if k == reflect.Struct || k == reflect.Map || k == reflect.Slice || (k == reflect.Pointer && tg.Elem().Kind() == reflect.Struct) {
+			if k == reflect.Struct || k == reflect.Map || k == reflect.Slice || k == reflect.Array || (k == reflect.Pointer && tg.Elem().Kind() == reflect.Struct) {
 				if form, ok := jsonForm(v, tg); ok {
 					tbl = append(tbl, fmt.Sprintf("(%s, Some %s)", cN(typeID(tg)), cStr(form)))
 				} else {
@@ -235,7 +235,7 @@ func ovalCoq(v any) string {
 		}
 	}
 	k := t.Kind()
-	if k == reflect.Struct || k == reflect.Map || k == reflect.Slice || (k == reflect.Pointer && t.Elem().Kind() == reflect.Struct) {
+	if k == reflect.Struct || k == reflect.Map || k == reflect.Slice || k == reflect.Array || (k == reflect.Pointer && t.Elem().Kind() == reflect.Struct) {
 		return fmt.Sprintf("(OVRepr %s %s)", cN(typeID(t)), cStr(fmt.Sprintf("%#v", derefAll(v))))
 	}
 	return fmt.Sprintf("(OVRepr %s \"\")", cN(typeID(t)))
